@@ -37,7 +37,7 @@ CLAIMED["C14"] = dict(
          "is touched only by the writers; every "
          "float->int conversion and every input-derived index is range-tested first; ~750 constant indices "
          "lie within the fixed Eigen dimensions; all ~190 loops follow a bounded idiom and the call graph has "
-         "no recursion; raw new/delete only in the C constructors/free; every arithmetic / enum / fixed-size Eigen data member of the repository's classes (309) has a default member initialiser or is set by every constructor (no indeterminate value on a fresh object); every default-constructed fixed-size Eigen local has all its entries assigned (loops unrolled, in-place completion helpers evaluated); parsed 64-bit integers are not narrowed without a range test. These hold for every input because "
+         "no recursion; raw new/delete only in the C constructors/free; every arithmetic / enum / fixed-size Eigen data member of the repository's classes (309) has a default member initialiser or is set by every constructor (no indeterminate value on a fresh object); every constant subscript of an SLHA line is dominated by a size test; every default-constructed fixed-size Eigen local has all its entries assigned (loops unrolled, in-place completion helpers evaluated); parsed 64-bit integers are not narrowed without a range test. These hold for every input because "
          "they are facts about all program paths, not about sampled files.",
     note=TRUST + "Not decided: UB inside Eigen/boost/libstdc++, uninitialised reads in general, leaks beyond "
          "'no raw allocation', Eigen accesses with run-time indices (counted, not judged). Allocation failure "
